@@ -101,11 +101,16 @@ def run(ctx):
         d = tlc.dump_edges(ctx.sub("dump"), "Heartbeat", cfg(H, ph, ma if not q else ma - 1, True, props=False), marker="STATE", timeout=2400)
         ctx.log("Heartbeat model H=%d phase=%d: %d states hold W1-W5; replaying %d behaviours" % (H, ph, r["distinct"], len(d["edges"])))
         # only maximal behaviours are needed? every distinct state's path is a prefix-closed set; replay all
-        for i, p in enumerate(d["edges"]):
+        edges = d["edges"]
+        cap = 8000
+        if len(edges) > cap:      # thorough instances have up to 260 000 behaviours: replay a seeded sample (memory, time)
+            rs = random.Random(ctx.seed * 101 + H * 7 + ph)
+            edges = rs.sample(edges, cap)
+        for i, p in enumerate(edges):
             specs.append({"id": "m%d.%d.%d" % (H, ph, i), "hb": H, "scale": 4, "phase": ph, "revs": PRE + list(p)})
             # the VIEW keeps one path per distinct state, so events with the same effect (the classes of wrong
             # TestReqIDs) are merged in the model: apply every peer frame of the alphabet at a sample of the states
-            if i % (25 if q else 4) == 0:
+            if i % (25 if q else 40) == 0:
                 for k, e in enumerate(PEER):
                     specs.append({"id": "m%d.%d.%d+%d" % (H, ph, i, k), "hb": H, "scale": 4, "phase": ph, "revs": PRE + list(p) + [e, {"t": "adv"}]})
     nmodel = len(specs)
@@ -118,7 +123,7 @@ def run(ctx):
     ctx.log("executing %d schedules on the real heartbeat task (%d from the model, %d random incl. larger intervals)" % (len(specs), nmodel, nr))
     recs = pmap(session.run_trace, specs)
     ctx.log("evaluating %d steps with TLC (HeartbeatEval)" % sum(len(r["steps"]) for r in recs))
-    verd = tlc.evaluate(ctx.sub("eval"), "HeartbeatEval", recs, shard_size=max(20, len(recs) // 16 + 1), jobs=16,
+    verd = tlc.evaluate(ctx.sub("eval"), "HeartbeatEval", recs, shard_size=max(20, min(600, len(recs) // 16 + 1)), jobs=16,
                         cfg_text=sessrun.eval_cfg(), timeout=2400)
     collect(ctx, out, recs, verd, specs)
     out.samples = [{"id": r["id"], "H": r["H"], "events": [(s["ev"]["t"], s["ev"].get("now"), (s["ev"].get("f") or {}).get("kind")) for s in r["steps"] if s["ev"]["t"] != "adv" or s["out"]["wrote"] or s["out"]["cb"]][:20]} for r in (recs[nmodel // 2], recs[-1])]
